@@ -22,8 +22,6 @@ package web
 //@   pure
 //@ assumed (*datasetHandler).lookupAuth
 //@   pure
-//@ assumed server.NewEntityStreamParser
-//@   pure
 //@ assumed server.HTTPFullsyncErr
 //@   pure
 //@ assumed server.HTTPGenericErr
@@ -46,8 +44,11 @@ package web
 //@   preserves server.Dataset.fullSyncStarted, server.Dataset.fullSyncID, server.Dataset.fullSyncLease, server.Dataset.fullSyncSeen, server.Dataset.store, server.Dataset.ID, server.Dataset.InternalID, server.Dataset.WriteLock, web.datasetHandler.*
 
 //@ unit (*datasetHandler).processEntities
-//@   prop C09
+//@   prop C09 C15
 //@   ghost acceptedG bool = false
+//@   ghost parserG *server.EntityStreamParser = nil
+//@   at call NewEntityStreamParser#1
+//@     ghost parserG := $result
 //@   requires handler != nil && handler.datasetManager != nil
 //@   requires [callers-hold-no-lock] forall l int :: has($held, l) ==> lockLevel(l) < 1
 //@   at call GetDataset#1
@@ -59,6 +60,7 @@ package web
 //@   at call ParseStream#1
 //@     assume forall i int :: 0 <= i && i < len(entities) ==> entities[i] != nil
 //@   at call ParseStream#1 before
+//@     assert [C15:every-request-is-parsed-by-a-new-parser-so-no-namespace-context-is-carried-over] parserG != nil && $arg0 == parserG
 //@     assert [C09:entities-stored-during-a-sync-only-after-the-requests-sync-id-was-accepted] dataset.fullSyncStarted ==> acceptedG
 //@   at call StoreEntities#1 before
 //@     assert [C09:entities-stored-during-a-sync-only-after-the-requests-sync-id-was-accepted] dataset.fullSyncStarted ==> acceptedG
